@@ -351,12 +351,12 @@ Config(name) ==
               \cup ChanReqs("c2", {<<>>, <<O("h1", 2)>>, <<O("h1", 1), O("h2", 1)>>}, FALSE)
               \cup {[op |-> "AddInvoice", h |-> "h1", a |-> 1], [op |-> "AddKeysend", h |-> "h2", a |-> 1],
                     [op |-> "Restart"]}]
-    [] name = "three" ->      \* three channels, one payment split three ways
+    [] name = "three" ->      \* three channels: two may pay the invoice, the third brings value in
          [chans |-> {"c1", "c2", "c3"}, hashes |-> {"h1"},
           reqs |-> ChanReqs("c1", {<<>>, <<O("h1", 1)>>}, FALSE)
               \cup ChanReqs("c2", {<<>>, <<O("h1", 1)>>}, FALSE)
               \cup ChanReqs("c3", {<<>>, <<R("h1", 1)>>}, FALSE)
-              \cup {[op |-> "AddInvoice", h |-> "h1", a |-> 2], [op |-> "Restart"]}]
+              \cup {[op |-> "AddInvoice", h |-> "h1", a |-> 1], [op |-> "Restart"]}]
     [] OTHER -> [chans |-> {}, hashes |-> {}, reqs |-> {}]
 
 \* the large alphabet of the simulation leg: every content of at most `parts` HTLCs
